@@ -146,11 +146,26 @@ def _guarded_by_every_caller(model, graph, func, test):
     from ..model import FuncInfo
     from ..xnone import _params
 
-    if not isinstance(test, ast.Name) or graph is None:
+    if graph is None:
+        return False
+    # ``assert <parameter>`` or ``assert <parameter> <comparison> <constant>``
+    if isinstance(test, ast.Name):
+        parameter = test.id
+    elif isinstance(test, ast.Compare) and isinstance(test.left, ast.Name) and len(test.ops) == 1 \
+            and isinstance(test.comparators[0], ast.Constant):
+        parameter = test.left.id
+    else:
         return False
     names = [name for name, _ in _params(func)]
-    if test.id not in names or not func.name.startswith("_"):
+    if parameter not in names or not func.name.startswith("_"):
         return False
+
+    def restated(argument):
+        """The asserted condition in the words of the caller."""
+        if isinstance(test, ast.Name):
+            return argument
+        return ast.Compare(left=argument, ops=test.ops, comparators=test.comparators)
+
     sites = 0
     for caller in model.functions.values():
         if not caller.module.name.startswith(model.PACKAGE):
@@ -162,9 +177,9 @@ def _guarded_by_every_caller(model, graph, func, test):
             positional = names[1:] if bound else names
             argument = None
             for name, value in list(zip(positional, call.args)) + [(k.arg, k.value) for k in call.keywords if k.arg]:
-                if name == test.id:
+                if name == parameter:
                     argument = value
-            if argument is None or not _truth_guarded(caller, argument, call):
+            if argument is None or not _truth_guarded(caller, restated(argument), call):
                 return False
             sites += 1
     return sites > 0
@@ -577,4 +592,13 @@ def rule_field_rows(ctx):
 
 from .common import rule_module_state, rule_undefined_attributes  # noqa: E402
 
-RULES = [rule_escapes, rule_main_mapping, rule_oserror_stays_oserror, rule_range_constructors, rule_setters, rule_field_rows, rule_delimited_error_helper, rule_definite_assignment, rule_none_arguments, rule_count_expressions_cannot_leave_the_process, rule_undefined_attributes, rule_module_state]
+def rule_types_one_can_name_are_concrete(ctx):
+    """O20.2 (shared with C20): a type cell resolves through the name-to-class maps; they hold the subclasses of the abstract
+    base and never the base itself - "Abstract" as a field type must be refused, not answered with NotImplementedError at the
+    first value."""
+    from .c20 import rule_class_resolution
+
+    rule_class_resolution(ctx)
+
+
+RULES = [rule_types_one_can_name_are_concrete, rule_escapes, rule_main_mapping, rule_oserror_stays_oserror, rule_range_constructors, rule_setters, rule_field_rows, rule_delimited_error_helper, rule_definite_assignment, rule_none_arguments, rule_count_expressions_cannot_leave_the_process, rule_undefined_attributes, rule_module_state]
